@@ -1,7 +1,7 @@
 ------------------------- MODULE MC_CompilerState -------------------------
 EXTENDS CompilerState, Json, TLCExt
-MCAccepted == {"comb", "coro", "prefix", "hier", "fifo", "reserved_opt", "enum_match"}
-MCRejected == {"rej_arch", "rej_trace", "rej_statemachine", "rej_drivers", "rej_prefix", "rej_temporary"}
+MCAccepted == {"comb", "coro", "prefix", "hier", "fifo", "reserved_opt", "enum_match", "fn_return", "sub_coro"}
+MCRejected == {"rej_arch", "rej_trace", "rej_statemachine", "rej_drivers", "rej_prefix", "rej_temporary", "rej_in_subcoro", "rej_in_call"}
 MCMaxLen == 3
 Emit == Len(hist) < MCMaxLen \/ PrintT(<<"CASE", ToJson(hist)>>)
 =============================================================================
